@@ -167,3 +167,16 @@ Theorem C17_hashsets_agree_with_one_list : forall maxreq target rs s,
   exists L, Forall (fun x => ev_ok L (EHashSet (fst x) (snd x))) (hf_run maxreq target s rs).
 Proof. exact hashsets_agree_with_one_list. Qed.
 Print Assumptions C17_hashsets_agree_with_one_list.
+
+(** The HashFetcher goroutine with its response timer as an event: after any history (response
+    then expiry, expiry then response, ...) closing quitCh ends the goroutine, so Reset's wait
+    on it returns; the drain idiom `if !timer.Stop() { <-timer.C }` does not have this property. *)
+Theorem C17_hashfetcher_exits_after_stop : forall es,
+  hl_loc (hl_run false hl_init (es ++ [HQuit])) = LExited.
+Proof. exact hashfetcher_exits_after_stop. Qed.
+Print Assumptions C17_hashfetcher_exits_after_stop.
+
+Theorem C17_drain_idiom_refuted :
+  hl_loc (hl_run true hl_init [HFire; HReadTimer; HRsp; HQuit]) = LBlockedOnTimer.
+Proof. exact drain_idiom_refuted. Qed.
+Print Assumptions C17_drain_idiom_refuted.
